@@ -10,6 +10,13 @@ package main
 import (
 	"fmt"
 	"os"
+	"runtime"
+	"sync"
+	"sync/atomic"
+	"time"
+
+	"github.com/google/mtail/internal/metrics"
+	"github.com/google/mtail/internal/metrics/datum"
 
 	"github.com/google/mtail/internal/zzverif/mrun"
 	"github.com/google/mtail/internal/zzverif/vlib"
@@ -65,6 +72,50 @@ func alphabet(c cfg, r *vlib.Rand) []mrun.Op {
 	}
 	ops = append(ops, mrun.Op{K: "emit"})
 	return ops
+}
+
+// concurrentCreate: 8 goroutines GetDatum+IncIntBy the same not-yet-existing
+// tuple; afterwards the enumeration must list that tuple exactly once with the
+// sum of the increments.
+func concurrentCreate(trials int) (string, string) {
+	for tr := 0; tr < trials; tr++ {
+		m := metrics.NewMetric("m", "prog", metrics.Counter, metrics.Int, "k0")
+		var wg sync.WaitGroup
+		var ready, gate int32
+		for g := 0; g < 8; g++ {
+			wg.Add(1)
+			go func() {
+				defer wg.Done()
+				atomic.AddInt32(&ready, 1)
+				for atomic.LoadInt32(&gate) == 0 { // spin barrier: release all at once
+				}
+				d, err := m.GetDatum("new")
+				if err == nil {
+					datum.IncIntBy(d, 1, time.Unix(1, 0))
+				}
+			}()
+		}
+		for atomic.LoadInt32(&ready) < 8 {
+			runtime.Gosched()
+		}
+		atomic.StoreInt32(&gate, 1)
+		wg.Wait()
+		n, sum := 0, int64(0)
+		for _, lv := range m.LabelValues {
+			if len(lv.Labels) == 1 && lv.Labels[0] == "new" {
+				n++
+				sum += datum.GetInt(lv.Value)
+			}
+		}
+		if n != 1 {
+			return "concurrent-create-duplicates", fmt.Sprintf("trial %d: tuple [new] is listed %d times after 8 concurrent first lookups", tr, n)
+		}
+		if d, _ := m.GetDatum("new"); datum.GetInt(d) != 8 {
+			return "concurrent-create-lost-update", fmt.Sprintf("trial %d: 8 increments, the tuple's datum holds %d", tr, datum.GetInt(d))
+		}
+		_ = sum
+	}
+	return "", ""
 }
 
 func main() {
@@ -159,6 +210,60 @@ func main() {
 			}
 			run(c, ops, "random")
 		}
+	}
+	// bursts over a large tuple universe: many live tuples, then mass deletion
+	// (slice growth/shrink paths), with enumerations in between
+	nb := 6
+	if a.Thorough() {
+		nb = 60
+	}
+	for i := 0; i < nb; i++ {
+		c := cfgs[i%len(cfgs)]
+		live := 20 + rng.Intn(60)
+		var ops []mrun.Op
+		mk := func(k int) []string {
+			t := make([]string, c.arity)
+			for j := range t {
+				t[j] = fmt.Sprintf("l%d", k)
+			}
+			return vlib.Qs(t)
+		}
+		for k := 0; k < live; k++ {
+			ops = append(ops, mrun.Op{K: "set", Ls: mk(k), V: val(c.ty, rng, k), T: int64(1000 + k)})
+		}
+		ops = append(ops, mrun.Op{K: "emit"})
+		order := make([]int, live)
+		for k := range order {
+			order[k] = k
+		}
+		for k := live - 1; k > 0; k-- { // shuffle
+			j := rng.Intn(k + 1)
+			order[k], order[j] = order[j], order[k]
+		}
+		keep := rng.Intn(16)
+		for n, k := range order {
+			if live-n <= keep {
+				break
+			}
+			ops = append(ops, mrun.Op{K: "remove", Ls: mk(k)})
+			if rng.Chance(15) {
+				ops = append(ops, mrun.Op{K: "emit"})
+			}
+			if rng.Chance(10) {
+				ops = append(ops, mrun.Op{K: "expire", Ls: mk(order[live-1]), E: int64(1 + rng.Intn(100))})
+			}
+		}
+		ops = append(ops, mrun.Op{K: "get", Ls: mk(order[live-1])}, mrun.Op{K: "remove", Ls: mk(order[live-1])})
+		run(c, ops, "burst")
+	}
+	// concurrent first touch (search aid; the model is sequential): several
+	// goroutines look up the same new tuple, then the metric must list it once
+	trials := 4000
+	if a.Thorough() {
+		trials = 40000
+	}
+	if cl, what := concurrentCreate(trials); cl != "" {
+		out.Violate(cl, what, map[string]any{"kind": "concurrent-create", "trials": trials})
 	}
 	out.Flush("every operation sequence up to the stated length over {get,set,inc,remove,expire}x{3 tuples, one of wrong arity}+{emit} for the first configurations, plus random sequences of length 5..200 for every (kind,type); a final emit is appended; non-trivial = at least one successful creation and at least one remove/expire; distinct by hash of the full case", false)
 }
